@@ -341,6 +341,8 @@ package tree
 //@ func (*tree.Tree).UpdateTipIndex
 //@   flag treeop
 //@   requires t != nil
+//@   assigns ghost(tipindex_stale)
+//@   ensures [name_index_rebuilt_from_the_current_tips] result == nil ==> ghost(tipindex_stale) == 0
 
 //@ func (*tree.Tree).Rename
 //@   flag noframe
@@ -573,3 +575,51 @@ package tree
 //@   ensures [own] old(INV()) && old(ORI()) ==> OWN()
 //@   ensures [inve] old(INV()) && old(ORI()) ==> INVE()
 //@   ensures [orientation] old(INV()) && old(ORI()) ==> ORI()
+
+// ---------------------------------------------------------------------------
+// Pruning (properties C06, C03)
+// ---------------------------------------------------------------------------
+
+// kills a node: its adjacency arrays are emptied, its branches lose their ends; nothing else changes
+//@ func (*tree.Tree).delNode
+//@   requires n != nil && len(n.neigh) == len(n.br) && (forall k int :: {n.br[k]} 0 <= k && k < len(n.br) ==> n.br[k] != nil)
+//@   assigns n.neigh, n.br, elems(n.neigh), elems(n.br), Edge.left, Edge.right, Edge.bitset
+//@   ensures [dead] deg(n) == 0 && len(n.br) == 0
+//@   ensures [only_its_own_branches_lose_their_ends] forall x *Edge :: {x.left} {x.right} (forall k int :: {old(n.br[k])} 0 <= k && k < old(len(n.br)) ==> old(n.br[k]) != x) ==> x.left == old(x.left) && x.right == old(x.right)
+//@   loop 1
+//@     assigns elems(n.neigh)
+//@   loop 2
+//@     assigns elems(n.br), Edge.left, Edge.right, Edge.bitset
+//@     invariant [branches_still_listed_ahead] n.br == lold(n.br) && (forall k int :: {n.br[k]} rangeindex < k && k < len(n.br) ==> n.br[k] == old(n.br[k]))
+//@     invariant [others_keep_their_ends] forall x *Edge :: {x.left} {x.right} (forall k int :: {old(n.br[k])} 0 <= k && k < old(len(n.br)) ==> old(n.br[k]) != x) ==> x.left == old(x.left) && x.right == old(x.right)
+
+// Case 2 of removeTip (the inner node is left with two neighbours and is suppressed):
+// the fresh branch joins the two neighbours, points away from the root, carries the summed
+// length when either old length is present and the larger support only between two inner nodes.
+//@ define NOINTOROOT(t *Tree) bool = t.root != nil && (forall x *Edge :: {x.right} allocated(x) ==> x.right != t.root)
+
+//@ func (*tree.Tree).removeTip
+//@   flag noframe
+//@   flag lightcalls
+//@   requires t != nil && tip != nil && allocated(tip) && INV() && NOINTOROOT(t)
+//@   assigns ghost(tipindex_stale)
+//@   ensures [the_name_index_is_stale_after_a_removal] result == nil ==> ghost(tipindex_stale) == 1
+//@   return [merged_branch_carries_the_summed_length_when_either_is_present] e != nil ==> e.length == (length1 != -1.0 || length2 != -1.0 ? max(0.0, length1) + max(0.0, length2) : -1.0)
+//@   return [merged_branch_support_is_the_larger_one_only_between_two_inner_nodes] e != nil ==> e.support == ((sup1 != -1.0 || sup2 != -1.0) && deg(n1) > 1 && deg(n2) > 1 ? max(sup1, sup2) : -1.0)
+//@   return [merged_branch_joins_the_two_neighbours_and_points_away_from_the_root] e != nil ==> ((e.left == n1 && e.right == n2) || (e.left == n2 && e.right == n1)) && e.right != t.root
+
+//@ func (*tree.Tree).ReinitInternalIndexes
+//@   flag treeop
+//@   requires t != nil
+
+// RemoveTips (property C06): exactly the tips whose membership in the given names differs from `revert` are
+// removed, and the tip-name index is rebuilt after the last removal
+//@ func (*tree.Tree).RemoveTips
+//@   flag noframe
+//@   flag lightcalls
+//@   requires t != nil
+//@   call (*tree.Tree).removeTip [removed_iff_listed_xor_revert] (has(namemap, tip.name) != revert) && a1 == tip && len(tip.neigh) == 1
+//@   call (*tree.Tree).ReinitInternalIndexes [name_index_is_rebuilt_before_branch_indexes] ghost(tipindex_stale) == 0
+//@   ensures [look_ups_by_name_reflect_the_pruned_tip_set] result == nil ==> ghost(tipindex_stale) == 0
+//@   loop 1
+//@     invariant [names_collected] namemap != nil && (forall k int :: {names[k]} 0 <= k && k <= rangeindex ==> has(namemap, names[k]))
